@@ -130,14 +130,16 @@ def parse_report(text):
            "lcd_list": [], "problems": [], "widths": []}
     n = len(lines)
     i = 0
-    # ---- header
-    if n and lines[0].startswith("Open Source Architecture Code Analyzer (OSACA) - "):
+    # ---- header: the wording of the title line is free; the header is the block that names the architecture
+    idx_first_table = next((k for k, ln in enumerate(lines) if ln in ("Combined Analysis Report", "Throughput Analysis Report")), n)
+    for ln in lines[:min(idx_first_table, 12)]:
+        m = re.match(r"^(Analyzed file|Architecture|Timestamp):\s+(.*)$", ln)
+        if m:
+            rep["header"][m.group(1)] = m.group(2).strip()
+    if "Architecture" in rep["header"]:
         rep["blocks"].append("Header")
-        rep["header"]["version"] = lines[0].split(" - ", 1)[1].strip()
-        for ln in lines[1:4]:
-            m = re.match(r"^(Analyzed file|Architecture|Timestamp):\s+(.*)$", ln)
-            if m:
-                rep["header"][m.group(1)] = m.group(2).strip()
+        m = re.search(r"(\d+(\.\d+)+\S*)\s*$", lines[0]) if n else None
+        rep["header"]["version"] = m.group(1) if m else ""
     # ---- locate sections
     idx_table = idx_lcd = None
     for k, ln in enumerate(lines):
@@ -145,16 +147,22 @@ def parse_report(text):
             idx_table = k
         if ln == "Loop-Carried Dependencies Analysis Report":
             idx_lcd = k  # the last one (an instruction comment cannot equal the whole line anyway)
+    # warnings are recognised by what they are about, not by their exact wording (the statements fix when a
+    # warning appears and that the missing-data warning states the number of instructions, not the text)
     for k, ln in enumerate(lines):
-        if not ln.startswith("-"):
+        if "WARNING:" not in ln or re.match(r"^\s*\d+ \|", ln):
             continue
-        for name, key in BLOCK_KEYS:
-            if key in ln:
-                rep["blocks"].append((k, name))
-        m = RE_MISSING.search(ln)
-        if m:
+        t = ln.split("WARNING:", 1)[1]
+        m = re.search(r"(\d+)", t)
+        if m and re.search(r"missing|performance data|no data", t, re.I):
             rep["blocks"].append((k, "MissingWarn"))
             rep["missing"] = int(m.group(1))
+        elif re.search(r"micro-?architecture|--arch\b", t, re.I):
+            rep["blocks"].append((k, "ArchWarn"))
+        elif re.search(r"LCD|loop-carried", t) and re.search(r"tim(ed|e-?out)", t, re.I):
+            rep["blocks"].append((k, "LcdWarn"))
+        elif re.search(r"large (amount|number)|--lines|too many", t, re.I):
+            rep["blocks"].append((k, "LenWarn"))
     if any(ln.startswith(" X - ") for ln in lines[: idx_table or n]):
         rep["legend"] = True
     # ---- table
